@@ -567,6 +567,9 @@ func (c *VirtualTable) Insert(ctx context.Context, values map[int]interface{}) (
 		}
 	}
 	dbg("%T %+v\n", key, key)
+	if c.notNullViolated(values, true) {
+		return 0, ErrS3DBConstraintNotNull
+	}
 	var old *v1proto.Row
 	var new v1proto.Row
 	var ot time.Time
@@ -594,6 +597,25 @@ func (c *VirtualTable) Insert(ctx context.Context, values map[int]interface{}) (
 	return 0, nil
 }
 
+// notNullViolated: the statement assigns NULL (or, for an INSERT, nothing) to a
+// column declared NOT NULL. SQLite does not enforce the constraints of a
+// virtual table's declaration.
+func (c *VirtualTable) notNullViolated(values map[int]interface{}, insert bool) bool {
+	if c.schema == nil {
+		return false
+	}
+	for i := range c.schema.Columns {
+		if !c.schema.Columns[i].NotNull {
+			continue
+		}
+		v, assigned := values[i]
+		if (assigned || insert) && v == nil {
+			return true
+		}
+	}
+	return false
+}
+
 func (c *VirtualTable) Update(ctx context.Context, key interface{}, values map[int]interface{}) error {
 	dbg("UPDATE ")
 	if key == nil {
@@ -612,6 +634,9 @@ func (c *VirtualTable) Update(ctx context.Context, key interface{}, values map[i
 	}
 	if !ok || old.Deleted {
 		return nil
+	}
+	if c.notNullViolated(values, false) {
+		return ErrS3DBConstraintNotNull
 	}
 	// an UPDATE leaves the row's insert/delete time alone
 	new.DeleteUpdateOffset = durationpb.New(ot.Add(old.DeleteUpdateOffset.AsDuration()).Sub(t))
